@@ -199,7 +199,9 @@ def theorem_family(ew, enc, names, iflags=0x400000):
         if sig[xi] == "M" and mode == 64:
             if optl == ["vex"]:
                 optl = []                       # emitVexEvexM_vexopt: neutral
-            elif optl == ["evex"] and (not iflags & 0x400000 or (sh in ("rvm", "rm", "rvmi", "rmi") and not bc)):      # .._mem_evexopt
+            elif "evex" in optl and all(o in ("evex", "z") for o in optl) and sh in ("rvm", "rm", "rvmi", "rmi") and not bc:      # .._mem_evexopt
+                optl = [o for o in optl if o != "evex"]
+            elif optl == ["evex"] and not iflags & 0x400000:
                 optl = []                       # emitVexEvexM_evexopt_evexonly: EVEX-only instruction, the option changes no byte
             if any(o != "z" for o in optl):
                 return None
